@@ -428,7 +428,7 @@ fn flat_join(t1: u8, vk1: u8, n1: usize, e1: usize, fc1: bool, lc1: u8, c1: usiz
     vassume!(lc1 == 0 || f2 == 0); // no two boundaries adjacent at the seam
     vassume!(t2 != 4 || f2 == 2); // a lone tree wildcard begins with a tree wildcard
     vcover!(t2 == 0);
-    vcover!(vk2 == 2 && lc2 == 2);
+    vcover!(t2 == 2);
     let SeparatedTerm(t, v) = cj(SeparatedTerm(ta, va), SeparatedTerm(tb, vb));
     let shared = lc1 == 0 && f2 == 0;
     vassume!(!shared || (c1 >= 1 && c2 >= 1));
@@ -436,13 +436,24 @@ fn flat_join(t1: u8, vk1: u8, n1: usize, e1: usize, fc1: bool, lc1: u8, c1: usiz
     assert!(rep(t, &v, fc1, lc2, c), "C10 the representation relation is preserved by joining two terms");
 }
 
-//@ob C10.flat.join.t0
+//@ob C10.flat.join.t0.a
 //@ props: C10
 //@ kind: complete
 //@ fns: src/token/variance/invariant/term.rs::SeparatedTerm::conjunction src/token/variance/invariant/term.rs::Termination::conjunction src/token/variance/invariant/mod.rs::SeparatedTerm::finalize src/token/variance/mod.rs::TokenVariance::conjunction
 //@ pre: ANY two terms L, R (every variance shape, bounds up to 2^40) with ghost facts satisfying rep, L with termination Open; no two boundaries adjacent at the seam
-//@ post: the REAL conjunction L x R satisfies rep for the joined sequence (count = cL + cR, minus one when a text run continues across the seam): brackets of any size and nesting keep the relation (split by the left termination only to parallelise the solver)
-fn ob_c10_flat_join_t0(vk1: u8, n1: usize, e1: usize, fc1: bool, lc1: u8, c1: usize, t2: u8, vk2: u8, n2: usize, e2: usize, f2: u8, lc2: u8, c2: usize) {
+//@ post: the REAL conjunction L x R satisfies rep for the joined sequence (count = cL + cR, minus one when a text run continues across the seam): brackets of any size and nesting keep the relation (split by the left termination and the shape of R's variance only to parallelise the solver; R invariant, unbounded or lower-bounded)
+fn ob_c10_flat_join_t0_a(vk1: u8, n1: usize, e1: usize, fc1: bool, lc1: u8, c1: usize, t2: u8, vk2: u8, n2: usize, e2: usize, f2: u8, lc2: u8, c2: usize) {
+    vassume!(vk2 <= 2);
+    flat_join(0, vk1, n1, e1, fc1, lc1, c1, t2, vk2, n2, e2, f2, lc2, c2)
+}
+//@ob C10.flat.join.t0.b
+//@ props: C10
+//@ kind: complete
+//@ fns: src/token/variance/invariant/term.rs::SeparatedTerm::conjunction src/token/variance/invariant/term.rs::Termination::conjunction src/token/variance/invariant/mod.rs::SeparatedTerm::finalize src/token/variance/mod.rs::TokenVariance::conjunction
+//@ pre: ANY two terms L, R (every variance shape, bounds up to 2^40) with ghost facts satisfying rep, L with termination Open; no two boundaries adjacent at the seam
+//@ post: the REAL conjunction L x R satisfies rep for the joined sequence (count = cL + cR, minus one when a text run continues across the seam): brackets of any size and nesting keep the relation (split by the left termination and the shape of R's variance only to parallelise the solver; R upper-bounded or two-sided)
+fn ob_c10_flat_join_t0_b(vk1: u8, n1: usize, e1: usize, fc1: bool, lc1: u8, c1: usize, t2: u8, vk2: u8, n2: usize, e2: usize, f2: u8, lc2: u8, c2: usize) {
+    vassume!(vk2 >= 3);
     flat_join(0, vk1, n1, e1, fc1, lc1, c1, t2, vk2, n2, e2, f2, lc2, c2)
 }
 //@ob C10.flat.join.t1
@@ -488,13 +499,8 @@ fn region_c10_flat_join_t3(vk1: u8, _n1: usize, _e1: usize, _fc1: bool, lc1: u8,
     region_join(3, vk1, lc1, t2, vk2, f2, lc2)
 }
 
-//@ob C10.flat.product
-//@ props: C10
-//@ kind: bounded(repetition bounds enumerated: lower <= 3, upper <= 3 or open; 1 <= n <= 3 copies of the body; the body term and the per-copy counts symbolic)
-//@ fns: src/token/variance/invariant/term.rs::SeparatedTerm::product src/token/mod.rs::Repetition::finalize<Depth> src/token/variance/mod.rs::TokenVariance::product
-//@ pre: a body term (t, v) that satisfies rep for each of n copies (same edges, each copy with its own component count c_i: tree wildcards may match differently in every copy), copies may follow each other (no two boundaries adjacent), n admitted by the repetition range
-//@ post: the REAL Repetition::finalize (SeparatedTerm product) satisfies rep for the repeated sequence: same edges, count = sum of the c_i minus one for every seam where a text run continues -- so a repetition can take part in the induction like any other bracket
-fn ob_c10_flat_product(t: u8, vk: u8, a: usize, e: usize, fc: bool, lc: u8, lo: u8, hi: u8, n: u8, c1: usize, c2: usize, c3: usize) {
+// n copies of a body under repetition
+fn flat_product(t: u8, vk: u8, a: usize, e: usize, fc: bool, lc: u8, lo: u8, hi: u8, n: u8, c1: usize, c2: usize, c3: usize) {
     vassume!(t <= 3 && flat_valid(vk, a, e) && lc <= 2 && lo <= 3 && hi <= 4 && hi >= 1 && (hi == 4 || lo <= hi) && n >= 1 && n <= 3);
     vassume!(c1 <= CMAX && c2 <= CMAX && c3 <= CMAX);
     let (termination, v) = (mk_termination(t), flat_tv(vk, a, e));
@@ -505,8 +511,8 @@ fn ob_c10_flat_product(t: u8, vk: u8, a: usize, e: usize, fc: bool, lc: u8, lo: 
     let upper = if hi == 4 { None } else { Some(hi as usize) };
     vassume!(n >= lo && (hi == 4 || n <= hi));
     let rep_branch = mk_repetition(lo as usize, upper);
-    vcover!(n == 3 && vk == 4);
-    vcover!(n == 2 && t == 0);
+    vcover!(vk == 4);
+    vcover!(t == 0);
     let out = variance::finalize::<Depth>(&rep_branch, Composition::Conjunctive(SeparatedTerm(termination, v)));
     core::mem::forget(rep_branch);
     let shared: u128 = if lc == 0 && !fc { 1 } else { 0 };
@@ -524,6 +530,37 @@ fn ob_c10_flat_product(t: u8, vk: u8, a: usize, e: usize, fc: bool, lc: u8, lo: 
             assert!(false, "C10 product of a conjunctive term is conjunctive")
         },
     }
+}
+
+//@ob C10.flat.product.n1
+//@ props: C10
+//@ kind: bounded(repetition bounds enumerated: lower <= 3, upper <= 3 or open; exactly 1 copy of the body; the body term and the per-copy counts symbolic)
+//@ fns: src/token/variance/invariant/term.rs::SeparatedTerm::product src/token/mod.rs::Repetition::finalize<Depth> src/token/variance/mod.rs::TokenVariance::product
+//@ pre: a body term (t, v) that satisfies rep for each of n copies (same edges, each copy with its own component count c_i: tree wildcards may match differently in every copy), copies may follow each other (no two boundaries adjacent), n admitted by the repetition range
+//@ post: the REAL Repetition::finalize (SeparatedTerm product) satisfies rep for the repeated sequence: same edges, count = sum of the c_i minus one for every seam where a text run continues -- so a repetition can take part in the induction like any other bracket
+fn ob_c10_flat_product_n1(t: u8, vk: u8, a: usize, e: usize, fc: bool, lc: u8, lo: u8, hi: u8, c1: usize, c2: usize, c3: usize) {
+    flat_product(t, vk, a, e, fc, lc, lo, hi, 1, c1, c2, c3)
+}
+
+//@ob C10.flat.product.n2
+//@ props: C10
+//@ kind: bounded(repetition bounds enumerated: lower <= 3, upper <= 3 or open; exactly 2 copies of the body; the body term and the per-copy counts symbolic)
+//@ fns: src/token/variance/invariant/term.rs::SeparatedTerm::product src/token/mod.rs::Repetition::finalize<Depth> src/token/variance/mod.rs::TokenVariance::product
+//@ pre: a body term (t, v) that satisfies rep for each of n copies (same edges, each copy with its own component count c_i: tree wildcards may match differently in every copy), copies may follow each other (no two boundaries adjacent), n admitted by the repetition range
+//@ post: the REAL Repetition::finalize (SeparatedTerm product) satisfies rep for the repeated sequence: same edges, count = sum of the c_i minus one for every seam where a text run continues -- so a repetition can take part in the induction like any other bracket
+fn ob_c10_flat_product_n2(t: u8, vk: u8, a: usize, e: usize, fc: bool, lc: u8, lo: u8, hi: u8, c1: usize, c2: usize, c3: usize) {
+    flat_product(t, vk, a, e, fc, lc, lo, hi, 2, c1, c2, c3)
+}
+
+//@ob C10.flat.product.n3
+//@ props: C10
+//@ kind: bounded(repetition bounds enumerated: lower <= 3, upper <= 3 or open; exactly 3 copies of the body; the body term and the per-copy counts symbolic)
+//@ tier: thorough
+//@ fns: src/token/variance/invariant/term.rs::SeparatedTerm::product src/token/mod.rs::Repetition::finalize<Depth> src/token/variance/mod.rs::TokenVariance::product
+//@ pre: a body term (t, v) that satisfies rep for each of n copies (same edges, each copy with its own component count c_i: tree wildcards may match differently in every copy), copies may follow each other (no two boundaries adjacent), n admitted by the repetition range
+//@ post: the REAL Repetition::finalize (SeparatedTerm product) satisfies rep for the repeated sequence: same edges, count = sum of the c_i minus one for every seam where a text run continues -- so a repetition can take part in the induction like any other bracket
+fn ob_c10_flat_product_n3(t: u8, vk: u8, a: usize, e: usize, fc: bool, lc: u8, lo: u8, hi: u8, c1: usize, c2: usize, c3: usize) {
+    flat_product(t, vk, a, e, fc, lc, lo, hi, 3, c1, c2, c3)
 }
 
 // ---------------------------------------------------------------------------------------------
@@ -557,6 +594,7 @@ fn sep_product(t: u8, k: u8, a: usize, b: usize, lo: u8, hi: u8, x: usize) {
 //@ob C10.sep.product.one-sided
 //@ props: C10
 //@ kind: bounded(repetition bounds enumerated via from_closed_and_open(lo <= 3, hi <= 3 or open); body variance invariant, unbounded or lower-bounded with bounds <= 2^40; termination symbolic)
+//@ tier: thorough
 //@ fns: src/token/variance/invariant/term.rs::SeparatedTerm::product src/token/mod.rs::Repetition::finalize<Depth> src/token/mod.rs::Repetition::variance
 //@ pre: any separated depth term (termination t, variance v one-sided), any enumerated repetition range r
 //@ post: the real Repetition::finalize on a real BranchKind::Repetition (Box child) keeps the termination and multiplies the variance: result = SeparatedTerm(t, v x r)
